@@ -94,6 +94,7 @@ func WriteFileAt(dir *os.File, filename string, data []byte, perm os.FileMode) e
 	vhook.At("files.write.afterClose")
 	if werr == nil {
 		werr = unix.Renameat(dirfd, tmpname, dirfd, filename)
+		vhook.At("files.write.afterRename")
 	}
 	if werr != nil {
 		_ = unix.Unlinkat(dirfd, tmpname, 0)
